@@ -101,7 +101,8 @@ def build_dataclass(term, reg: Registry):
 
     pyname = reg._pyname(name)
     ann: dict[str, Any] = {}
-    ns: dict[str, Any] = {"__module__": reg.modname, "__qualname__": pyname}
+    dmod = get_opt(cfg, "module")
+    ns: dict[str, Any] = {"__module__": reg.submodule(dmod).__name__ if dmod else reg.modname, "__qualname__": pyname}
     for f in own_fields:
         fname, ftype, dflt, fopts = f[0], f[1], f[2], f[3] if len(f) > 3 else []
         t = concretize_type(ftype, reg)
@@ -181,7 +182,7 @@ def build_dataclass(term, reg: Registry):
         elif k == "classvars":
             for cv, val in o[1]:
                 ns[cv] = concretize_value(val, reg)
-        elif k in ("mixin", "bases", "redeclared", "sorted_idx", "discr_field", "hooks", "slots", "frozen", "no_config", "generic_params"):
+        elif k in ("mixin", "bases", "redeclared", "sorted_idx", "discr_field", "hooks", "slots", "frozen", "no_config", "generic_params", "module"):
             pass
         else:
             raise BridgeError(f"unknown cfg option {k}")
@@ -198,7 +199,7 @@ def build_dataclass(term, reg: Registry):
         cls = _types.new_class(pyname, bases, {}, lambda n: n.update(ns))
     else:
         cls = type(pyname, bases, ns)
-    reg._register(cls, name, term)     # register BEFORE dataclass() so self-references resolve
+    reg._register(cls, name, term, module=dmod)     # register BEFORE dataclass() so self-references resolve
     dc_kwargs = {}
     if get_opt(cfg, "frozen", False):
         dc_kwargs["frozen"] = True
